@@ -10,7 +10,7 @@
    dimension d, or jump-time), and an explicit schedule (fresh draws of every sample; level/pass
    history); `consumed` = all positions used by the samples, in order. *)
 From Coq Require Import ZArith List Bool Lia.
-From RV Require Import Model.Rng Model.RngSim Model.RngMlPool Proofs.C08_Rng Proofs.C08_Sim Proofs.C08_MlPool.
+From RV Require Import Model.Rng Model.RngSim Model.RngMlPool Model.RngRuns Proofs.C08_Rng Proofs.C08_Sim Proofs.C08_MlPool Proofs.C08_Runs.
 Import ListNotations.
 Open Scope Z_scope.
 
@@ -275,7 +275,16 @@ Proof. vm_compute. repeat split. Qed.
    Jump-time mode, both entry points, every number of levels / pass history (levels added or not), every chunking and
    assignment of chunks to workers in every pool, every ambient parent state: if the (pid, clock) pairs of all workers of
    the run are pairwise different, all samples -- across chunks, workers, levels and passes -- use pairwise disjoint
-   positions.  (NoDup of the keys is the hypothesis about the OS of C08_pools_jump_mode_disjoint.) *)
+   positions.  (NoDup of the keys is the hypothesis about the OS of C08_pools_jump_mode_disjoint.)
+   LABEL (audit5a B9 / top-10 #6): this is the older C08_pools_jump_mode_disjoint TRANSPORTED through jump_psamples (in
+   jump-time mode the samples' positions of prun are those of pools_samples of the run's pools): the multilevel engine's
+   control flow -- n0, g0, the slots and levels, the parent's pre_computations and copies -- is IRRELEVANT to it; an
+   "engine" that put every pool on a wrong slot and level would satisfy the same statement.  It cannot fail for a reason
+   inside the engine model; sharing is expressible in prun only through an out-of-range worker (pool_ok) or a key
+   collision (the OS hypothesis).  A worker that is not seeded, re-seeds per chunk or inherits generator state cannot be
+   written in the model: that is the business of the trace tie (seed events and generator-state hashes of real pools),
+   not of this theorem.  What it adds to the older theorem is only that mlcp_ops / mlpp_ops hand the pools' samples through
+   unchanged. *)
 Theorem C08_mlpool_jump_mode_disjoint : forall nb d n0 g0,
   (forall pools, NoDup (pools_keys pools) -> Forall pool_ok pools ->
      NoDup (flat_map snd (psamples (mkMode false nb d) (mlcp_ops (mkMode false nb d) n0 pools) (init g0))))
@@ -284,7 +293,8 @@ Theorem C08_mlpool_jump_mode_disjoint : forall nb d n0 g0,
 Proof. exact mlpool_jump_mode_disjoint. Qed.
 
 (* the same for ANY interleaving of parent instructions and pools (any slots, any levels, any parent state), as long as
-   the parent itself simulates no sample: the disjointness does not depend on the engine's control flow *)
+   the parent itself simulates no sample: the disjointness does not depend on the engine's control flow -- which is
+   exactly why both statements are C08_pools_jump_mode_disjoint transported, not theorems about the engine (label above) *)
 Theorem C08_mlpool_jump_mode_disjoint_any_order : forall nb d ops st, forallb par_quiet ops = true ->
   NoDup (pools_keys (pools_of ops)) -> Forall pool_ok (pools_of ops) ->
   NoDup (flat_map snd (psamples (mkMode false nb d) ops st)).
@@ -330,6 +340,50 @@ Proof.
   - repeat constructor; simpl; lia.
 Qed.
 
+(* ---- wave 8 (audit5a D2), refuted on the delivered tree: F-C08-9.  seed = None, nb_of_processes = 1:
+   initialisation_seed seeds with [os.getpid(), int(time.time())] at EVERY pricing, so the seed of an unseeded run is a
+   function of (pid, whole second).  Two pricings of one process whose clock reads fall into the same second
+   (Model/RngRuns.v: the second run starts from next_run_state of the first run's final state -- generators and deques as
+   they were left, the tracer's deque numbering restarted): C08's "within one run" clauses hold for each run, but over the
+   two runs of the process (1) every position is consumed twice -- "no two samples share random variates" fails --,
+   (2) the second seed event moves the generators to a (seed id, position 0) that has already produced samples.
+   Witness: pid 4242, second 1700000000, two paths, fixed-date and jump-time mode. *)
+Theorem C08_unseeded_same_second_refuted :
+  (let ops := std_unseeded ss_pid ss_now (mkMode true 1 1) ss_sched in
+     ~ NoDup (two_runs_consumed ops ops (mkGen (-1) 0 0)) /\ ~ reseed_free (two_runs_events ops ops (mkGen (-1) 0 0)))
+  /\ (let ops := std_unseeded ss_pid ss_now (mkMode false 1 1) ss_sched in
+     ~ NoDup (two_runs_consumed ops ops (mkGen (-1) 0 0)) /\ ~ reseed_free (two_runs_events ops ops (mkGen (-1) 0 0))).
+Proof. exact unseeded_same_second_refuted. Qed.
+
+(* the same for ALL pids, seconds, modes, schedules / histories, ambient states and all three entry points: the second
+   run has exactly the events and the samples (same positions) of the first.
+   LABEL: this is C08_engines_forget_state TRANSPORTED through `an unseeded run is the run seeded with seed_of pid now`
+   (unseeded_is_seeded, by computation); the only new content is that reading of the seed.  It says "identical" for a
+   GIVEN schedule; that the real schedule repeats as well is C08_std_seeded_repeatable_derived and, on the
+   implementation, the same-second oracle (bit-identical stored values and prices). *)
+Theorem C08_unseeded_same_second_runs_identical : forall pid now m g,
+  (forall ss, let ops := std_unseeded pid now m ss in let st2 := next_run_state (final ops (init g)) in
+              events ops st2 = events ops (init g) /\ samples ops st2 = samples ops (init g))
+  /\ (forall n0 lv, let ops := mlc_unseeded pid now m n0 lv in let st2 := next_run_state (final ops (init g)) in
+              events ops st2 = events ops (init g) /\ samples ops st2 = samples ops (init g))
+  /\ (forall n0 ps, let ops := mlp_unseeded pid now m n0 ps in let st2 := next_run_state (final ops (init g)) in
+              events ops st2 = events ops (init g) /\ samples ops st2 = samples ops (init g)).
+Proof. exact unseeded_same_second_runs_identical. Qed.
+
+(* non-vacuity: the witness runs consume variates (positions of seed id seed_of 4242 1700000000), the second run starts
+   from a state that differs from the first one's (generator advanced, deques emptied) and still has the same samples;
+   a second later the seed id is another one *)
+Example C08_nonvacuous_runs :
+  seed_of ss_pid ss_now = 18220951269632
+  /\ (let ops := std_unseeded ss_pid ss_now (mkMode true 1 1) ss_sched in
+      map snd (samples ops (init (mkGen (-1) 0 0)))
+      = [[(false, 18220951269632, 0); (false, 18220951269632, 4); (false, 18220951269632, 2)];
+         [(false, 18220951269632, 1); (false, 18220951269632, 5); (false, 18220951269632, 6); (false, 18220951269632, 3)]]
+      /\ samples ops (next_run_state (final ops (init (mkGen (-1) 0 0)))) = samples ops (init (mkGen (-1) 0 0))
+      /\ s_gen (final ops (init (mkGen (-1) 0 0))) = mkGen 18220951269632 7 0)
+  /\ seed_of ss_pid (ss_now + 1) = 18220951269633.
+Proof. vm_compute. repeat split. Qed.
+
 Print Assumptions C08_single_process_disjoint.
 Print Assumptions C08_samples_pairwise_disjoint.
 Print Assumptions C08_rows_exactly_once.
@@ -363,3 +417,6 @@ Print Assumptions C08_mlpool_jump_mode_disjoint.
 Print Assumptions C08_mlpool_jump_mode_disjoint_any_order.
 Print Assumptions C08_mlpool_fixed_mode_share_refuted.
 Print Assumptions C08_nonvacuous_mlpool.
+Print Assumptions C08_unseeded_same_second_refuted.
+Print Assumptions C08_unseeded_same_second_runs_identical.
+Print Assumptions C08_nonvacuous_runs.
